@@ -77,4 +77,16 @@ CLAIMS["C13"] = {
     "technique": "linear forms of slice bounds + constant evaluation of hash/renderer over small finite domains + memo-key dependency analysis (AST)",
 }
 
+CLAIMS["C20"] = {
+    "text": "Decides the ownership clause for the whole package: a flow-sensitive provenance analysis with interprocedural returns-alias / mutates-parameter summaries (fixpoint over resolved "
+            "calls) classifies the base of every in-place write; the computed set of (function, parameter) mutators must be inside a frozen, reasoned allow-list (explicit assignment API, "
+            "accumulators, private helpers), every call site of a private mutator must pass memory its caller owns, in-place writes into receiver arrays occur only in listed "
+            "setters/initialisers (a write through a local alias of receiver state is flagged), the field views given to parsers are copy-on-write, the functions that write into raw "
+            "buffers have no caller, and 22 named public derivations mutate none of their arguments. 'No public function modifies its inputs' is a who-may-write property over all paths, "
+            "which a may-alias analysis decides for every input at once.",
+    "note": _NOTE + "Unsound direction (stated in evidence): unresolved callees are assumed not to mutate and unknown-kind indices yield 'unknown' (never reported). "
+                    "Not decided: equality of repeated results; writes inside npstructures; copy-on-write behaviour of EncodedRaggedArray.copy on views.",
+    "technique": "interprocedural may-alias / ownership dataflow with mutator summaries and frozen who-may-write tables (AST)",
+}
+
 NOT_APPLICABLE = {}
